@@ -597,6 +597,12 @@ class World(object):
             return made[lf[2] % len(made)] if made else None
         elif op == "dd":
             r = self.dd_call(lf[2], lf[3], lf[4])
+        elif op == "bt":
+            r = self.active.get(lf[2])
+            if r is None:
+                self.serial += 1
+                r = self.active[lf[2]] = HBatch(lf[2], self.serial)
+            self.keep.append(r)
         elif op == "dbi":
             if self.baton is not None:
                 self.baton.point(self.tidx)
@@ -1112,6 +1118,25 @@ def _block(w, tc, stmts, rec, made):
         elif op == "with":
             with _CM(w, w.make_ctx(tc, st)):
                 yield from _block(w, tc, st[3], rec, made)
+        elif op == "ovl":
+            cm1 = _CM(w, w.make_ctx(tc, ("with", st[1], "A")))
+            cm2 = _CM(w, w.make_ctx(tc, ("with", -1 - st[1], "A")))
+            cm1.__enter__()
+            cm2.__enter__()
+            try:
+                yield from _block(w, tc, st[2], rec, made)
+            except BaseException:
+                ei = sys.exc_info()
+                cm1.__exit__(*ei)
+                cm2.__exit__(*ei)
+                raise
+            cm1.__exit__(None, None, None)  # the FIRST context is left first; the second stays open over st[3]
+            try:
+                yield from _block(w, tc, st[3], rec, made)
+            except BaseException:
+                cm2.__exit__(*sys.exc_info())
+                raise
+            cm2.__exit__(None, None, None)
         elif op == "sync":
             rec.append(w.sync_call(tc, st))
         elif op == "raise":
